@@ -322,7 +322,7 @@ func genAdversarial(r *RNG, scale int) KeySet {
 	if scale == 1 {
 		maxN = 30000
 	}
-	switch r.Intn(7) {
+	switch r.Intn(8) {
 	case 0: // binary caterpillar
 		return KeySet{"adv:caterpillar", genDeep(r, r.Range(10, min(maxN, 1500)))}
 	case 1: // every inner node has a long step: binary tree with long edges
@@ -368,8 +368,57 @@ func genAdversarial(r *RNG, scale int) KeySet {
 		// few keys, every node the same wide nibble bitmap: the short-node
 		// table must pay for itself
 		return KeySet{"adv:decimal", genDecimal(r, 400)}
+	case 6:
+		// byte-wide nodes of very different fan-out within one level
+		mode := r.Intn(4)
+		return KeySet{fmt.Sprintf("adv:mixed-fanout-%d", mode), genMixedFanout(r, maxN, mode)}
 	}
 	return genKeySet(r, scale)
+}
+
+// genMixedFanout: levels in which a few nodes have many children (11-20
+// distinct next bytes, enough for a 257-bit node) and the rest have two, with
+// labels far apart. mode 0: the first node of every level is the wide one;
+// 1: the last one; 2: every sixth at random; 3: the first one, and the narrow
+// nodes all use the labels 7f/ff.
+func genMixedFanout(r *RNG, maxN int, mode int) []string {
+	level := []string{""}
+	depth := r.Range(5, 12)
+	pairs := [][]byte{{0x7f, 0xff}, {0x00, 0x80}, {0x10, 0xf0}, {0x3c, 0xc3}}
+	for d := 0; d < depth && len(level) <= maxN; d++ {
+		var next []string
+		for i, p := range level {
+			wide := false
+			switch mode {
+			case 0, 3:
+				wide = i == 0
+			case 1:
+				wide = i == len(level)-1
+			default:
+				wide = r.Chance(1, 6)
+			}
+			var labels []byte
+			if wide {
+				seen := map[byte]bool{}
+				for k := r.Range(11, 20); len(labels) < k; {
+					b := byte(r.Intn(256))
+					if !seen[b] {
+						seen[b] = true
+						labels = append(labels, b)
+					}
+				}
+			} else if mode == 3 {
+				labels = pairs[0]
+			} else {
+				labels = pairs[r.Intn(len(pairs))]
+			}
+			for _, l := range labels {
+				next = append(next, p+string([]byte{l}))
+			}
+		}
+		level = next
+	}
+	return sortUniq(level)
 }
 
 func pow(a, b int) int {
@@ -382,6 +431,10 @@ func pow(a, b int) int {
 	}
 	return x
 }
+
+// c17AppOpts: the default option list of an application, forwarded to builds
+// for as long as the worker lives.
+var c17AppOpts = []trie.Opt{{}}
 
 func runC17(ctx *Ctx, idx int) {
 	r := NewRNG(caseSeed(ctx.Seed, "C17", ctx.Tier, idx))
@@ -474,6 +527,59 @@ func runC17(ctx *Ctx, idx int) {
 		})
 		if pv != nil {
 			viol("reload-panic", map[string]interface{}{"panic": fmt.Sprint(pv)})
+		}
+	}
+	// an application that keeps one option list and forwards it to every build
+	// (NewSlimTrie(e, keys, nil, appOpts...)): the list lives as long as the
+	// process and has seen every earlier build, now and then one that was
+	// refused because its keys share more than a step can count. What is built
+	// through it with default options is still the filter-mode index of its keys.
+	if idx%4 == 1 {
+		pv, _ := try(func() {
+			if (idx/4)%8 == 0 {
+				long := "a" + strings.Repeat("x", 33000)
+				trie.NewSlimTrie(encode.Dummy{}, []string{long + "1", long + "2", "b"}, nil, c17AppOpts...)
+				ctx.Count("over_long_build_through_the_forwarded_option_list", 1)
+			}
+			st, err := trie.NewSlimTrie(encode.Dummy{}, keys, nil, c17AppOpts...)
+			if err != nil {
+				viol("build-failed-through-forwarded-option-list", map[string]interface{}{"error": err.Error()})
+				return
+			}
+			b, _ := st.Marshal()
+			if len(b) > bound {
+				viol("size-bound-through-forwarded-option-list", map[string]interface{}{"size": len(b), "size_with_fresh_options": sz, "bound": bound})
+				return
+			}
+			pl := 3000
+			if pl+maxLen > 16384 {
+				pl = 16384 - maxLen
+			}
+			if pl > 0 {
+				p := strings.Repeat("q", pl)
+				pk := make([]string, n)
+				for i, k := range keys {
+					pk[i] = p + k
+				}
+				st2, err := trie.NewSlimTrie(encode.Dummy{}, pk, nil, c17AppOpts...)
+				if err != nil {
+					viol("prefixed-build-failed-through-forwarded-option-list", map[string]interface{}{"error": err.Error()})
+					return
+				}
+				b2, _ := st2.Marshal()
+				d := len(b2) - len(b)
+				if d < 0 {
+					d = -d
+				}
+				if d > 16+(n+63)/64 {
+					viol("prefix-changes-size-through-forwarded-option-list", map[string]interface{}{"prefix_len": pl, "size_K": len(b), "size_PK": len(b2)})
+					return
+				}
+			}
+			ctx.Count("built_through_a_long_lived_forwarded_option_list", 1)
+		})
+		if pv != nil {
+			viol("panic-through-forwarded-option-list", map[string]interface{}{"panic": fmt.Sprint(pv)})
 		}
 	}
 	ctx.Max("size_permille_of_bound", int64(sz*1000/bound))
@@ -626,7 +732,7 @@ func runC19(ctx *Ctx, idx int) {
 	}
 	keys := ks.Keys
 	n := len(keys)
-	kinds := []string{"i32", "none", "i64", "u16", "i32"}
+	kinds := []string{"i32", "none", "i64", "u16", "i32", "f64", "i8", "defI64", "f64"}
 	kind := kinds[r.Intn(len(kinds))]
 	vals := genVals(r, kind, n, r.Intn(5))
 	if r.Chance(1, 4) {
@@ -829,7 +935,7 @@ func init() {
 		MinNontrivial: func(tier string) int { return 300 },
 		Gates: func(tier string, m *Merged) []string {
 			var missed []string
-			for _, g := range []string{"prefixed_pairs", "family:adv:caterpillar", "family:adv:big-caterpillar", "family:adv:decimal", "family:adv:long-steps", "family:adv:distinct-bitmaps", "family:adv:fanout-11", "family:adv:fanout-2", "family:adv:fanout-256"} {
+			for _, g := range []string{"prefixed_pairs", "family:adv:caterpillar", "family:adv:big-caterpillar", "family:adv:decimal", "family:adv:long-steps", "family:adv:distinct-bitmaps", "family:adv:fanout-11", "family:adv:fanout-2", "family:adv:fanout-256", "family:adv:mixed-fanout-0", "family:adv:mixed-fanout-3", "built_through_a_long_lived_forwarded_option_list", "over_long_build_through_the_forwarded_option_list"} {
 				if m.C(g) == 0 {
 					missed = append(missed, g)
 				}
